@@ -759,3 +759,39 @@ func VfH_C18_string_kern() {
 	}
 	vfReach("end")
 }
+
+// H-C01-longcontext: contextual rules longer than the match buffer (maxContextLength glyphs): a (chained)
+// context rule of 63..66 input glyphs applied to a buffer of as many matching glyphs must neither overflow the
+// match positions nor loop.
+func VfH_C01_longcontext() {
+	n := maxContextLength - 1 + vfChoice("extra", 4) // 63..66
+	input := make([]uint16, n)
+	for i := range input {
+		input[i] = 1
+	}
+	var sub tables.GPOSLookup
+	if vfBool("chained") {
+		sub = vfChain3([]uint16{1}, input, []uint16{1}, [][2]uint16{{uint16(n - 1), 0}})
+	} else {
+		sub = vfContext3(input, [][2]uint16{{uint16(n - 1), 0}})
+	}
+	lk := font.GPOSLookup{Subtables: []tables.GPOSLookup{sub}}
+	nested := vfNestedLookups()
+	m := n + 2
+	buf := NewBuffer()
+	buf.Info = make([]GlyphInfo, m)
+	buf.Pos = make([]GlyphPosition, m)
+	for i := range buf.Info {
+		buf.Info[i] = GlyphInfo{Glyph: 1, Cluster: i, Mask: vfLookupMask, glyphProps: tables.GPBaseGlyph}
+	}
+	buf.maxOps = 16384
+	buf.idx = 1
+	var c otApplyContext
+	c.reset(1, vfStepFont(), buf)
+	c.setLookupMask(vfLookupMask)
+	c.recurseFunc = func(c *otApplyContext, li uint16) bool {
+		return c.applyRecurseLookup(li, lookupGPOS(nested[li]))
+	}
+	lookupGPOS(lk).dispatchApply(&c)
+	vfReach("end")
+}
